@@ -163,10 +163,14 @@ def write_shapefile(
         for i, polygon in enumerate(dataset.ems.polygons):
             if polygon is None:
                 continue
+            # The values are passed in field order rather than by field name.
+            # Shapefile field names are limited to ten characters,
+            # so `linear_index` is stored as `linear_ind`
+            # and a value passed by its full name would be silently dropped.
             writer.record(
-                name=f'polygon{i}',
-                linear_index=i,
-                index=json.dumps(dataset.ems.wind_index(i)),
+                f'polygon{i}',
+                i,
+                json.dumps(dataset.ems.wind_index(i)),
             )
             writer.shape(polygon.__geo_interface__)
 
